@@ -1042,15 +1042,11 @@ fn mode_wallet(scen_path: &str, out_path: &str) {
     let seed = seed_from_env();
     let scenarios = read_ndjson(scen_path);
     let hang_secs: u64 = std::env::var("C05_HANG_SECS").ok().and_then(|s| s.parse().ok()).unwrap_or(90);
-    let (mut w, keys1) = W::new(true);
-    let (_a2, usk2) = w.st.create_account_from_test_seed("second");
-    let ufvk2 = usk2.to_unified_full_viewing_key();
-    let accounts = vec![keys1[0].clone(), Keys::from_ufvk(&ufvk2)];
-    let acct_ids: Vec<i64> = {
-        let conn = w.st.wallet().conn();
-        conn.prepare("SELECT id FROM accounts ORDER BY id").unwrap().query_map([], |r| r.get::<_, i64>(0)).unwrap().map(|r| r.unwrap()).collect()
-    };
-    assert_eq!(acct_ids.len(), 2, "harness: two accounts expected");
+    // the wallet comes with two accounts under the test seed (account 1 = the test account)
+    let (mut w, accounts) = W::new(true);
+    assert_eq!(accounts.len(), 2, "harness: two accounts expected");
+    let acct_ids: Vec<i64> = w.acct_rows.clone();
+    assert_eq!(acct_ids.len(), 2, "harness: two account rows expected");
     let mut mat = Mat::new(accounts.clone(), seed);
     let net = w.net;
     let mut chain = Chain::new(w.base, accounts, &mut ChaChaRng::seed_from_u64(seed ^ 0x5eed), true);
